@@ -350,6 +350,17 @@ Definition parseEmbeddedCode (fuel : nat) (st : pstate) : pres stmt :=
   else if curIs st1 T_IDENT && peekIs st1 T_ASSIGN then parseAssignStmt fuel st1
   else parseExpressionStmt fuel st1.
 
+(* parseBracesStmt: one statement of a {{ ... }} block; the block must go on (";") or be closed ("}}") after it *)
+Definition parseBracesStmt (fuel : nat) (st : pstate) : pres stmt :=
+  do (s, st1) <- parseEmbeddedCode fuel st;
+  if negb (Nat.eqb (List.length (errs st1)) (List.length (errs st))) || curIs st1 T_RBRACES ||
+     peekIn st1 [T_RBRACES; T_SEMI]
+  then POk s st1
+  else match tokenString T_RBRACES, tokenString (ttype (peekT st1)) with
+       | Some a, Some b => POk SNull (addErr st1 (eline (peekT st1)) (fmt ErrWrongNextToken [a; b]))
+       | _, _ => POk SNull (setPanic st1)
+       end.
+
 (* @breakIf / @continueIf *)
 Definition parseCondDirective (fuel : nat) (mk : nat -> expr -> stmt) (st : pstate) : pres stmt :=
   let t := curT st in
@@ -405,7 +416,7 @@ Fixpoint parseStatement (fuel : nat) (st : pstate) {struct fuel} : pres stmt :=
     let ln := eline t in
     match ttype t with
     | T_HTML => POk (SHtml ln (tlit t)) st
-    | T_LBRACES | T_SEMI => parseEmbeddedCode f st
+    | T_LBRACES | T_SEMI => parseBracesStmt f st
     | T_IF =>
       let '(ok, st1) := expectPeek st T_LPAREN in
       if negb ok then POk SNull st1 else
